@@ -10,11 +10,21 @@ use corgi::optimizer::Optimizer;
 /// `shapes[i]` is parameter i, `has_grad[i]` whether it holds a gradient (else frozen);
 /// `repeats` updates in a row (fresh symbolic gradients before each).
 pub fn update<S: Source>(s: &mut S, shapes: &[&[usize]], has_grad: &[bool], repeats: usize) {
+    update_with(s, shapes, has_grad, repeats, false)
+}
+
+/// `frozen_untracked`: the parameters without a gradient are frozen the way a user freezes
+/// them (`stop_tracking()`); "left untouched" then includes the tracking flag
+pub fn update_with<S: Source>(s: &mut S, shapes: &[&[usize]], has_grad: &[bool], repeats: usize, frozen_untracked: bool) {
     let lr = s.lr();
     let gd = GradientDescent::new(lr);
     let mut params: Vec<Array> = Vec::with_capacity(shapes.len());
-    for d in shapes {
-        params.push(mk(s, d, Dom::D4).tracked());
+    for (i, d) in shapes.iter().enumerate() {
+        let p = mk(s, d, Dom::D4).tracked();
+        if frozen_untracked && !has_grad[i] {
+            p.stop_tracking();
+        }
+        params.push(p);
     }
     // handles the caller kept from before the update must stay as they were (see also C08)
     let mut keep: Vec<Array> = Vec::new();
@@ -54,7 +64,11 @@ pub fn update<S: Source>(s: &mut S, shapes: &[&[usize]], has_grad: &[bool], repe
             if was {
                 p.start_tracking();
             }
-            chk!(was, "[c13:untracked] an updated parameter is not tracked");
+            if has_grad[i] || !frozen_untracked {
+                chk!(was, "[c13:untracked] an updated parameter is not tracked");
+            } else {
+                chk!(!was, "[c13:frozen-flag] a frozen (untracked, gradient-free) parameter was not left untouched: it is tracked now");
+            }
         }
     }
     witness();
